@@ -39,6 +39,8 @@ CONSTANTS MaxSize,      \* pool size (1 | 2)
 
 Deviations == {"NoProbe",            \* _get_conn skips is_connection_dropped / it always says False
                "ProbeEofOnly",       \* is_connected peeks: pending DATA counts as connected, only EOF as dropped
+               "ProbeSkipsLeadingCrlf",  \* is_connection_dropped swallows one leading CRLF of the pending bytes and
+                                     \* reports the connection alive without looking at what follows
                "NoCloseOnUnclean",   \* _error_catcher does not close the connection on unclean exit
                "NoDiscardOnError",   \* urlopen does not discard the connection after ProtocolError
                "RawNotReady",        \* HTTPException missing from urlopen's except tuple
@@ -67,7 +69,7 @@ bkv == <<arr, probes, outcome, opres, yl, clean>>
 vars == <<netv, resp, prgv, bkv, hist>>
 
 NoScript == [fr |-> "none", len |-> 0, cut |-> NoCut, ka |-> TRUE, extra |-> "none", after |-> "none",
-             late |-> 0, shape |-> "cells"]
+             late |-> 0, shape |-> "cells", pre |-> "none"]
 NoOp == [kind |-> "none", k |-> 0, hold |-> FALSE]
 NoResp == [st |-> "none", s |-> 0, conn |-> FALSE, rb |-> <<>>, fr |-> "none", left |-> 0, deliv |-> <<>>,
            tag |-> NoUnit]
@@ -89,10 +91,19 @@ BodyUnits(sc, r, s, n) ==
     IF sc.shape = "http"
     THEN <<U("r", "cell", r, s, n, 0), U("r", "bhead", r, s, n, 0), U("r", "cell", r, s, n, 1), U("r", "cell", r, s, n, 2)>>
     ELSE [j \in 1..sc.len |-> U("r", "cell", r, s, n, j - 1)]
-Unsolicited(what, r, s, n) ==
+\* unsolicited bytes = PREFIX (nothing | CRLF | CRLF CRLF | SP | lone LF | HTAB) then WHAT (nothing | garbage
+\* cells | a partial status line | a complete response); none of it is a reply to anything
+Pfx(code, r, s, n) == U("s", "pre", r, s, n, code)
+PrefixUnits(pre, r, s, n) ==
+    CASE pre = "crlf" -> <<Pfx(1, r, s, n)>> [] pre = "crlfcrlf" -> <<Pfx(1, r, s, n), Pfx(1, r, s, n)>>
+      [] pre = "sp" -> <<Pfx(3, r, s, n)>> [] pre = "lf" -> <<Pfx(4, r, s, n)>> [] pre = "htab" -> <<Pfx(5, r, s, n)>>
+      [] OTHER -> <<>>
+Payload(what, r, s, n) ==
     CASE what = "stray" -> <<U("s", "cell", r, s, n, 0), U("s", "cell", r, s, n, 1)>>
       [] what = "smuggle" -> <<U("m", "head", r, s, n, 0), U("m", "cell", r, s, n, 0), U("m", "cell", r, s, n, 1)>>
+      [] what = "partial" -> <<U("s", "partial", r, s, n, 0)>>
       [] OTHER -> <<>>
+Unsolicited(what, pre, r, s, n) == IF what = "none" THEN <<>> ELSE PrefixUnits(pre, r, s, n) \o Payload(what, r, s, n)
 PeerCloses(sc) == sc.fr \in {"drop", "close"} \/ sc.cut # NoCut \/ ~sc.ka
 Framed(sc, r, s, n) ==      \* head + body (+ terminator), before extras
     IF sc.fr = "drop" THEN <<>>
@@ -103,7 +114,7 @@ Framed(sc, r, s, n) ==      \* head + body (+ terminator), before extras
 Late(sc) == IF sc.cut = NoCut THEN sc.late ELSE 0
 WrittenNow(sc, r, s, n) ==
     LET f == Framed(sc, r, s, n) IN
-    SubSeq(f, 1, Len(f) - Late(sc)) \o (IF PeerCloses(sc) \/ Late(sc) > 0 THEN <<>> ELSE Unsolicited(sc.extra, r, s, n))
+    SubSeq(f, 1, Len(f) - Late(sc)) \o (IF PeerCloses(sc) \/ Late(sc) > 0 THEN <<>> ELSE Unsolicited(sc.extra, sc.pre, r, s, n))
 WrittenLater(sc, r, s, n) ==
     LET f == Framed(sc, r, s, n) IN SubSeq(f, Len(f) - Late(sc) + 1, Len(f))
 
@@ -209,7 +220,10 @@ StartReq ==
 
 \* _get_conn: LIFO get (never blocks: block=False), then the dropped-connection probe
 Readable(s) == kb[s] # <<>> \/ peof[s]              \* data pending in the kernel buffer, or EOF pending
-ProbeDropped(s) == IF "ProbeEofOnly" \in Dev THEN kb[s] = <<>> /\ peof[s] ELSE Readable(s)
+LeadingCrlf(s) == kb[s] # <<>> /\ Head(kb[s]).k = "pre" /\ Head(kb[s]).i = 1
+ProbeDropped(s) == IF "ProbeEofOnly" \in Dev THEN kb[s] = <<>> /\ peof[s]
+                   ELSE IF "ProbeSkipsLeadingCrlf" \in Dev /\ LeadingCrlf(s) THEN FALSE
+                   ELSE Readable(s)
 Checkout ==
     /\ pc = "checkout"
     /\ IF queue = <<>> THEN /\ cs' = 0 /\ UNCHANGED <<queue, cli, prior, resp, probes>>
@@ -223,8 +237,12 @@ Checkout ==
                                                    res |-> IF dropped THEN "dropped" ELSE "alive"])
                       /\ IF dropped THEN cs' = 0 /\ Commit(CloseIn(q2, item))
                                     ELSE cs' = item /\ Commit(q2)
+    /\ kb' = IF "ProbeSkipsLeadingCrlf" \in Dev /\ "NoProbe" \notin Dev /\ queue # <<>> /\ queue[Len(queue)] # 0
+                /\ cli[queue[Len(queue)]] = "open" /\ LeadingCrlf(queue[Len(queue)])
+             THEN [kb EXCEPT ![queue[Len(queue)]] = Tail(@)]             \* the CRLF is taken off the wire
+             ELSE kb
     /\ pc' = "send"
-    /\ UNCHANGED <<nsock, kb, peof, wh, nrq, cur, att, plan, ops, arr, outcome, opres, yl, clean, hist>>
+    /\ UNCHANGED <<nsock, peof, wh, nrq, cur, att, plan, ops, arr, outcome, opres, yl, clean, hist>>
 
 \* conn.request(): connect if needed, putrequest forgets a completed prior response, bytes go out
 Send ==
@@ -437,17 +455,18 @@ Drop ==
 
 \* peer activity on the (idle) connection that answered, in a later segment, before the next checkout
 PeerTarget == resp[cur].tag.s
-ServerStray == /\ pc = "after" /\ plan[cur].after \in {"stray", "smuggle"} /\ ~peof[PeerTarget]
+ServerStray == /\ pc = "after" /\ plan[cur].after \in {"stray", "smuggle", "partial", "pre"} /\ ~peof[PeerTarget]
                /\ resp[cur].tag.t = "r" /\ resp[cur].tag.k = "head"
-               /\ kb' = [kb EXCEPT ![PeerTarget] = @ \o Unsolicited(plan[cur].after, cur, PeerTarget, resp[cur].tag.n)]
+               /\ kb' = [kb EXCEPT ![PeerTarget] = @ \o Unsolicited(plan[cur].after, plan[cur].pre, cur, PeerTarget, resp[cur].tag.n)]
                /\ clean' = [clean EXCEPT ![PeerTarget] = FALSE]
                /\ pc' = "next" /\ UNCHANGED <<queue, nsock, cli, peof, wh, nrq, prior, resp, cur, att, cs, plan, ops,
                                               arr, probes, outcome, opres, yl, hist>>
 ServerEOF == /\ pc = "after" /\ plan[cur].after = "eof" /\ ~peof[PeerTarget]
              /\ resp[cur].tag.t = "r" /\ resp[cur].tag.k = "head"
              /\ peof' = [peof EXCEPT ![PeerTarget] = TRUE]
+             /\ kb' = [kb EXCEPT ![PeerTarget] = @ \o PrefixUnits(plan[cur].pre, cur, PeerTarget, resp[cur].tag.n)]
              /\ clean' = [clean EXCEPT ![PeerTarget] = FALSE]
-             /\ pc' = "next" /\ UNCHANGED <<queue, nsock, cli, kb, wh, nrq, prior, resp, cur, att, cs, plan, ops,
+             /\ pc' = "next" /\ UNCHANGED <<queue, nsock, cli, wh, nrq, prior, resp, cur, att, cs, plan, ops,
                                             arr, probes, outcome, opres, yl, hist>>
 NoAfter == /\ pc = "after"
            /\ \/ plan[cur].after = "none" \/ peof[PeerTarget] \/ ~(resp[cur].tag.t = "r" /\ resp[cur].tag.k = "head")
